@@ -177,8 +177,19 @@ class LazyList:
         # Should work for infinite lists
         self_clone = vyxal.helpers.deep_copy(self)
         other_clone = vyxal.helpers.deep_copy(other)
-        item = next(self_clone)
-        other_item = next(other_clone)
+        # (either list may be empty: the empty list is the smallest)
+        try:
+            item = next(self_clone)
+        except StopIteration:
+            try:
+                next(other_clone)
+            except StopIteration:
+                return 0
+            return -1
+        try:
+            other_item = next(other_clone)
+        except StopIteration:
+            return 1
         while item == other_item:
             try:
                 item = next(self_clone)
